@@ -42,3 +42,18 @@ package stubs
 //@   ensures typeis[string](key) ==> result == ctxval(ctx, as[string](key))
 //@ extern context.Background
 //@   ensures result != nil
+
+// Writers: bytes handed to the client are counted by the ghost counter `written`.
+//@ extern io.WriteString
+//@   params w, s
+//@   modifies count(written)
+//@   ensures result0 >= 0 && result0 <= len(s) && count(written) == old(count(written)) + result0
+//@   ensures result1 == nil ==> result0 == len(s)
+
+//@ extern bytes.NewBuffer
+//@   ensures result != nil && fresh(result)
+//@ extern (*bytes.Buffer).Bytes
+//@ extern (*bytes.Buffer).String
+
+// The engine's optional debugger only observes.
+//@ noeffect engine.Debug
